@@ -7,13 +7,16 @@
    times, any sender, any hook, including hook transactions that carry withdrawals); Propose (honest root over any event range) / Delete; Claim m
    (the claim built from the RECORDED withdrawal m with [Merkle.prove] at the position found by its sequence); block time and height
    are free per L1 step; Admin1 (every L1 role / config / params update, batch record and IBC
-   environment change, for any bridge).  Not system steps (see docs/C08.md): CreateBridge
-   (fresh states may contain any bridge configs), ExecuteMessages-wrapped L2 messages. *)
+   environment change, for any bridge); Other (bridge creation, and deposit / propose / delete /
+   claim addressed to ANY OTHER bridge - guarded by the account-space assumptions: not spent
+   from our escrow, the other escrow and the community pool are not our escrow; a payout of
+   another bridge to our escrow counts as a donation).  Not system steps (see docs/C08.md):
+   ExecuteMessages-wrapped L2 messages. *)
 From stdpp Require Import gmap numbers list.
 From Coq Require Import ZArith.
 Require Import Model.Bytes Model.Bank Model.Hashes Model.Merkle Model.System.
-Require Model.L1 Model.L2.
-Require Import Proofs.MerkleProofs Proofs.C03Binding Proofs.C04Proofs Proofs.C08Proofs Proofs.C08Drain.
+Require Model.L1 Model.L2 Model.Genesis1.
+Require Import Proofs.MerkleProofs Proofs.C03Binding Proofs.C04Proofs Proofs.C08Proofs Proofs.C08Drain Proofs.C08Schedule.
 
 (* After ANY system history from fresh states, for every L1 denom d with L2 denom
    d' = l2_denom bridge d:
@@ -30,66 +33,126 @@ Proof. exact c08_solvency_invariant. Qed.
 Theorem C08_invariant_step : ∀ c s m, inv c s → inv c (sys_step c s m).1.
 Proof. exact step_inv. Qed.
 
-(* Drain, part 1 (funding).  After ANY system history from fresh states, every recorded and
-   unpaid withdrawal of the L2 denom derived from d is covered by the escrow's balance of d -
-   given that the L2 supply of that denom is not negative (the C09 supply ledger) - or a denom
-   collision is exhibited.  (The non-negativity of the other ledger terms is proved: event and
-   withdrawal amounts and donations are >= 0 in every reachable state; the codec premise is
-   the one of C04_recorded_fields.) *)
-Theorem C08_drain_funded_partial : ∀ (c : scfg) (s0 : sys) (h : list smsg) (d : bytes) (w : L2.wrec),
-  fresh c s0 → L2.resolve (c2 c) [] = None →
+(* [genesis c s] = fresh, and the L2 bank is consistent (no negative balance; the supply of every
+   denom is the sum of its balances).  Along every system history the L2 bank stays consistent
+   (Proofs/BankNonneg.v, Proofs/BankTotal.v), so the L2 supply is never negative. *)
+
+(* Drain, part 1 (funding).  After ANY system history from genesis, every recorded and unpaid
+   withdrawal of the L2 denom derived from d is covered by the escrow's balance of d, or a denom
+   collision is exhibited.  (Codec premise as in C04_recorded_fields.) *)
+Theorem C08_drain_funded : ∀ (c : scfg) (s0 : sys) (h : list smsg) (d : bytes) (w : L2.wrec),
+  genesis c s0 → L2.resolve (c2 c) [] = None →
   let s := sys_run c s0 h in
-  (0 ≤ gets (L2.bk (l2 s)) (l2d c d))%Z →
   w ∈ L2.wlog (l2 s) → L2.w_seq w ∉ paid s → L2.w_denom w = l2d c d →
   (L2.w_amt w ≤ getb (L1.bk (l1 s)) (escrow_of c) d)%Z ∨ denom_collision c.
-Proof. exact c08_unpaid_funded. Qed.
+Proof. exact c08_drain_funded. Qed.
 
-(* Drain, part 2 (acceptance).  After ANY system history from fresh states: the claim step for a
-   recorded, unpaid withdrawal m with positive amount and an L1-valid recipient, against an
-   output index that stores the honest root over an event range (lo,hi] containing m and is
-   final at the step's block time, is ACCEPTED - provided its leaf is not yet marked claimed
-   and the L2 supply of its denom is not negative - or a denom collision is exhibited.  By
-   C08_invariant_step the state after the claim satisfies the equation again, with m paid.
-   MISSING for the full C08_drain: (i) the "leaf not marked claimed" premise - removed by
-   C08_drain_claim_binding_partial below; (ii) supply >= 0 (C09); (iii) the schedule
-   bookkeeping (relay all, propose, wait, claim all; then escrow = supply + donations and the
-   conservation of combined holdings) - checked by the C08 stream's forced drain. *)
-Theorem C08_drain_claim_partial : ∀ (c : scfg) (s0 : sys) (h : list smsg) (e : L1.env) (sender : bytes)
+(* Drain, part 2 (acceptance of one claim).  After ANY system history from genesis: the claim
+   step for a recorded, UNPAID withdrawal m with positive amount and an L1-valid recipient,
+   against an output index that stores the honest root over an event range (lo,hi] containing m
+   and is final at the step's block time, is ACCEPTED - or a denom collision, or an explicit
+   collision of the hash function, is exhibited.  Counters are assumed not to wrap (bridge id
+   and next L2 sequence below 2^64, DESIGN section 8).  By C08_invariant_step the state after
+   the claim satisfies the equation again, with m paid. *)
+Theorem C08_drain_claim : ∀ (c : scfg) (s0 : sys) (h : list smsg) (e : L1.env) (sender : bytes)
     (idx m lo hi v : N) (bh : bytes) (w : L2.wrec) (x : L1.config) (o : L1.output) (rcv : N),
-  fresh c s0 → L2.resolve (c2 c) [] = None → (∀ y, length (L1.hash (c1 c) y) = 32%nat) →
-  let s := sys_run c s0 h in
-  (0 ≤ gets (L2.bk (l2 s)) (L2.w_denom w))%Z →
-  find_w (l2 s) m = Some w → m ∉ paid s → (lo < m ≤ hi)%N →
-  (0 < L2.w_amt w)%Z → L1.resolve (c1 c) (L2.w_to w) = Some rcv → is_Some (L1.resolve (c1 c) sender) →
-  (1 ≤ bid c)%N → (1 ≤ idx)%N →
-  L1.configs (l1 s) !! bid c = Some x → L1.outputs (l1 s) !! (bid c, idx) = Some o →
-  L1.o_root o = honest_root c (l2 s) lo hi v bh → L1.is_final x e o = true → length bh = 32%nat →
-  (bid c, wleaf c w) ∉ L1.proven (l1 s) →
-  (sys_step c s (SClaim e sender idx m lo hi v bh)).2 = true ∨ denom_collision c.
-Proof. exact c08_drain_claim. Qed.
-
-(* Drain, part 2 without the "leaf not marked claimed" premise: using the C03 leaf binding and
-   the invariant "every claimed leaf of the bridge is the leaf of a PAID recorded withdrawal",
-   an UNPAID recorded withdrawal (positive amount, L1-valid recipient, covered by an honest
-   final output) is accepted when claimed - or a denom collision, or an explicit collision of
-   the hash function, is exhibited.  Counters are assumed not to wrap (bridge id and next L2
-   sequence below 2^64, DESIGN section 8); the supply premise is C09's ledger. *)
-Theorem C08_drain_claim_binding_partial : ∀ (c : scfg) (s0 : sys) (h : list smsg) (e : L1.env) (sender : bytes)
-    (idx m lo hi v : N) (bh : bytes) (w : L2.wrec) (x : L1.config) (o : L1.output) (rcv : N),
-  fresh c s0 → L2.resolve (c2 c) [] = None → (∀ y, length (L1.hash (c1 c) y) = 32%nat) →
+  genesis c s0 → L2.resolve (c2 c) [] = None → (∀ y, length (L1.hash (c1 c) y) = 32%nat) →
   let s := sys_run c s0 h in
   (bid c < 18446744073709551616)%N → (L2.next_l2 (l2 s) ≤ 18446744073709551616)%N →
-  (0 ≤ gets (L2.bk (l2 s)) (L2.w_denom w))%Z →
   find_w (l2 s) m = Some w → m ∉ paid s → (lo < m ≤ hi)%N →
   (0 < L2.w_amt w)%Z → L1.resolve (c1 c) (L2.w_to w) = Some rcv → is_Some (L1.resolve (c1 c) sender) →
   (1 ≤ bid c)%N → (1 ≤ idx)%N →
   L1.configs (l1 s) !! bid c = Some x → L1.outputs (l1 s) !! (bid c, idx) = Some o →
   L1.o_root o = honest_root c (l2 s) lo hi v bh → L1.is_final x e o = true → length bh = 32%nat →
   (sys_step c s (SClaim e sender idx m lo hi v bh)).2 = true ∨ denom_collision c ∨ Collision (L1.hash (c1 c)).
-Proof. exact c08_drain_claim_binding. Qed.
+Proof. exact c08_drain_claim_g. Qed.
+
+(* Drain, claim phase as a schedule.  From ANY state reachable from genesis in which output idx
+   commits honestly to the recorded events (lo,hi] and is final at e: running the claim steps of
+   a duplicate-free list ms of claimable sequences in that range ([claimable]: recorded, unpaid,
+   positive amount, L1-valid recipient), in ANY order, makes EVERY step Ok; afterwards every one
+   of them is rejected, whatever the submission (exactly once); L2 is untouched; the solvency
+   equation holds; and if ms contained every claimable sequence, every record that is still
+   unpaid is an excluded one (zero amount, or a recipient that is not an L1 address - DESIGN
+   section 7), so that escrow = supply2 + unrelayed deposits + donations + sum of excluded
+   records.  Or a denom / hash collision is exhibited. *)
+Theorem C08_drain_claims : ∀ (c : scfg) (s0 : sys) (e : L1.env) (sender : bytes) (idx lo hi v : N) (bh : bytes)
+    (h : list smsg) (ms : list N),
+  genesis c s0 → L2.resolve (c2 c) [] = None → (∀ y, length (L1.hash (c1 c) y) = 32%nat) →
+  (1 ≤ bid c < 18446744073709551616)%N → is_Some (L1.resolve (c1 c) sender) → (1 ≤ idx)%N → length bh = 32%nat →
+  let s := sys_run c s0 h in
+  NoDup ms → committed_final c s e idx lo hi v bh → (L2.next_l2 (l2 s) ≤ 18446744073709551616)%N →
+  (∀ m, m ∈ ms → claimable c s m ∧ (lo < m ≤ hi)%N) →
+  let s' := sys_run c s (claim_steps e sender idx lo hi v bh ms) in
+  (Forall (λ b, b = true) (sys_oks c s (claim_steps e sender idx lo hi v bh ms)) ∧
+   (∀ m e' sender' idx' lo' hi' v' bh', m ∈ ms →
+      (sys_step c s' (SClaim e' sender' idx' m lo' hi' v' bh')).2 = false) ∧
+   l2 s' = l2 s ∧
+   (∀ d, solvent c s' d ∨ denom_collision c) ∧
+   ((∀ m, claimable c s m → m ∈ ms) →
+    ∀ w, w ∈ L2.wlog (l2 s') → L2.w_seq w ∉ paid s' →
+         ¬ ((0 < L2.w_amt w)%Z ∧ is_Some (L1.resolve (c1 c) (L2.w_to w))))) ∨
+  denom_collision c ∨ Collision (L1.hash (c1 c)).
+Proof. exact c08_drain_claims. Qed.
+
+(* C08_drain.  From ANY state s reachable from genesis, the schedule [drain] -
+     relay every pending emitted event in order (executor ex, any hook descriptions hk);
+     propose the honest output over ALL withdrawals recorded after those relays (index idx =
+     the bridge's next output index, by its proposer, at block time e1);
+     at a block time e2 at least the finalization period later, submit the claims of the
+     listed sequences ms, where ms is ANY duplicate-free enumeration of the claimable sequences
+     (recorded, unpaid, positive amount, L1-valid recipient) of the state after the relays -
+   has EVERY step accepted (each pending deposit is credited or refunded; every claim is Ok),
+   after which: a second submission of any of those claims is rejected, whatever its
+   parameters (exactly once); no emitted deposit is pending; every record that is still unpaid
+   is an excluded one (zero amount, or a recipient that is not an L1 address - DESIGN section
+   7); and the equation holds, i.e. escrow(b,d) = supply2(d') + donations(d) + sum of the
+   excluded records of d'.  Or a denom collision / an explicit hash collision is exhibited.
+   Hypotheses: the codecs reject the empty string; the hash has 32-byte outputs of bytes;
+   ex is a current executor; counters do not wrap (bridge id, next L2 sequence <= 2^64). *)
+Theorem C08_drain : ∀ (c : scfg) (s0 : sys) (h : list smsg) (ex : bytes) (height : N) (hk : N → L2.hookp)
+    (e1 : L1.env) (proposer : bytes) (idx l2b v : N) (bh : bytes) (e2 : L1.env) (sender : bytes)
+    (ms : list N) (x : L1.config),
+  genesis c s0 → L2.resolve (c2 c) [] = None → L1.resolve (c1 c) [] = None → Genesis1.hash_wf (c1 c) →
+  (1 ≤ bid c < 18446744073709551616)%N → height ≠ 0%N → length bh = 32%nat → (1 ≤ idx)%N →
+  let s := sys_run c s0 h in
+  L2.is_executor (c2 c) (l2 s) ex = true →
+  L1.configs (l1 s) !! bid c = Some x → proposer = L1.c_proposer x → is_Some (L1.resolve (c1 c) proposer) →
+  idx = L1.out_of (l1 s) (bid c) →
+  (if (idx =? 1)%N then true
+   else match L1.outputs (l1 s) !! (bid c, (idx - 1)%N) with Some o => (L1.o_l2 o <? l2b)%N | None => false end) = true →
+  (L1.now e1 + L1.c_period x ≤ L1.now e2)%Z → is_Some (L1.resolve (c1 c) sender) →
+  let s1 := sys_run c s (relay_steps ex height hk (pending_seqs c s)) in
+  (L2.next_l2 (l2 s1) ≤ 18446744073709551616)%N →
+  NoDup ms → (∀ m, m ∈ ms ↔ claimable c s1 m) →
+  let sched := drain c s ex height hk e1 proposer idx l2b v bh e2 sender ms in
+  let s' := sys_run c s sched in
+  (Forall (λ b, b = true) (sys_oks c s sched) ∧
+   (∀ m e' sender' idx' lo' hi' v' bh', m ∈ ms →
+      (sys_step c s' (SClaim e' sender' idx' m lo' hi' v' bh')).2 = false) ∧
+   (∀ d, pending_dep c s' d = 0%Z) ∧
+   (∀ w, w ∈ L2.wlog (l2 s') → L2.w_seq w ∉ paid s' →
+         ¬ ((0 < L2.w_amt w)%Z ∧ is_Some (L1.resolve (c1 c) (L2.w_to w)))) ∧
+   (∀ d, solvent c s' d ∨ denom_collision c)) ∨
+  denom_collision c ∨ Collision (L1.hash (c1 c)).
+Proof. exact c08_drain. Qed.
+
+(* Conservation of combined holdings.  After ANY system history from fresh states: what is held
+   of d on L1 outside the escrow (sum of all L1 balances of d minus the escrow's), plus the L2
+   supply of the derived denom, plus the value in flight (unrelayed deposits, unpaid
+   withdrawals) and the donations, equals the initial L1 total of d - or a denom collision. *)
+Theorem C08_holdings_conserved : ∀ (c : scfg) (s0 : sys) (h : list smsg) (d : bytes),
+  fresh c s0 →
+  let s := sys_run c s0 h in
+  ((bal_total (L1.bk (l1 s)) d - getb (L1.bk (l1 s)) (escrow_of c) d) +
+   gets (L2.bk (l2 s)) (l2d c d) + pending_dep c s d + pending_wd s (l2d c d) + donations s d
+   = bal_total (L1.bk (l1 s0)) d)%Z ∨ denom_collision c.
+Proof. exact c08_holdings_conserved. Qed.
 
 Print Assumptions C08_solvency_invariant.
 Print Assumptions C08_invariant_step.
-Print Assumptions C08_drain_funded_partial.
-Print Assumptions C08_drain_claim_partial.
-Print Assumptions C08_drain_claim_binding_partial.
+Print Assumptions C08_drain_funded.
+Print Assumptions C08_drain_claim.
+Print Assumptions C08_drain_claims.
+Print Assumptions C08_drain.
+Print Assumptions C08_holdings_conserved.
